@@ -70,20 +70,26 @@ static __thread int c_na, c_nf, c_nz, c_badfree, c_fz;   /* per-call counters */
 static __thread int live_blocks;
 
 void *__real_calloc(size_t, size_t);
+void *__real_malloc(size_t);
+void *__real_realloc(void *, size_t);
+void *__real_aligned_alloc(size_t, size_t);
+int __real_posix_memalign(void **, size_t, size_t);
 void __real_free(void *);
 
-void *__wrap_calloc(size_t n, size_t sz)
+/* one allocation request of the library, whichever function it came through:
+   counted, possibly refused (fault injection), served flush against a guard
+   page; zero != 0: zero-filled (calloc), else filled with 0xA5 - what malloc
+   hands out is whatever a previous owner left there */
+static void *lib_alloc(size_t size, size_t align, int zero)
 {
-    if (!in_lib)
-        return __real_calloc(n, sz);
     c_na++;
     if (fail_next && c_na == fail_next) {
         fail_next = 0;
         fail_hit = 1;
         return NULL;
     }
-    size_t size = n * sz;
-    size_t rounded = (size + 15) & ~(size_t)15;
+    if (align < 16) align = 16;
+    size_t rounded = (size + align - 1) & ~(align - 1);
     size_t pages = (rounded + PAGE - 1) / PAGE;
     if (pages == 0) pages = 1;
     if (nblk >= MAXBLK) { fprintf(stderr, "drv: too many blocks\n"); _exit(3); }
@@ -93,12 +99,62 @@ void *__wrap_calloc(size_t n, size_t sz)
     mprotect(m + pages * PAGE, PAGE, PROT_NONE);
     Blk *b = &blks[nblk++];
     b->map = m; b->maplen = pages * PAGE;
-    b->ptr = m + pages * PAGE - rounded;    /* flush against the guard */
+    b->ptr = m + pages * PAGE - rounded;    /* flush against the guard (up to the alignment) */
     b->size = size; b->live = 1;
     /* slack before the block is poisoned: an underflow write shows at free */
     memset(m, 0xEE, (size_t)(b->ptr - m));
+    if (!zero) memset(b->ptr, 0xA5, size);
     live_blocks++;
     return b->ptr;
+}
+
+void *__wrap_calloc(size_t n, size_t sz)
+{
+    if (!in_lib)
+        return __real_calloc(n, sz);
+    return lib_alloc(n * sz, 16, 1);
+}
+
+void *__wrap_malloc(size_t size)
+{
+    if (!in_lib)
+        return __real_malloc(size);
+    return lib_alloc(size, 16, 0);
+}
+
+void *__wrap_aligned_alloc(size_t align, size_t size)
+{
+    if (!in_lib)
+        return __real_aligned_alloc(align, size);
+    return lib_alloc(size, align, 0);
+}
+
+int __wrap_posix_memalign(void **out, size_t align, size_t size)
+{
+    void *p;
+    if (!in_lib)
+        return __real_posix_memalign(out, align, size);
+    p = lib_alloc(size, align, 0);
+    if (!p) return 12;   /* ENOMEM */
+    *out = p;
+    return 0;
+}
+
+void __wrap_free(void *p);
+void *__wrap_realloc(void *old, size_t size)
+{
+    if (!in_lib)
+        return __real_realloc(old, size);
+    void *p = lib_alloc(size, 16, 0);
+    if (p && old) {
+        for (int i = 0; i < nblk; i++)
+            if (blks[i].ptr == old && blks[i].live) {
+                memcpy(p, old, blks[i].size < size ? blks[i].size : size);
+                break;
+            }
+        __wrap_free(old);
+    }
+    return p;
 }
 
 void __wrap_free(void *p)
@@ -618,6 +674,15 @@ static void do_ks(void)
         unsigned long len = argu("len", n);
         int tnull = is_null("tweak");
         uint8_t *tp = tnull ? NULL : put(A_AUX, "pt", kb, n, 0);
+        if (arg("selfoff") && !onull) {
+            /* the new tweak is read from inside the object's own (public) tweak field:
+               "new tweak = bytes self..self+len-1 of the tweak in force" */
+            size_t off = (size_t)argu("selfoff", 0);
+            tp = (is128 ? (uint8_t *)t128[o].tweak : (uint8_t *)t64[o].tweak) + off;
+            n = (size_t)len;
+            memcpy(kb, tp, n);        /* what the caller passes, as bytes, for the trace */
+            tnull = 0;
+        }
         jbytes_or_null("tweak", kb, n, tnull); jlen_capped("len", len);
         call_begin();
         if (is128) ret = skinny128_set_tweak(onull ? NULL : &t128[o], tp, (unsigned)len);
